@@ -210,7 +210,7 @@ def metacommand_rows():
             inf = True
         if litstr:
             need(0 <= mn <= 1 and mx == 1 and not inf, f"{what}: literal_string_operand needs exactly one operand (Metacommand.__init__ asserts)")
-        row = dict(meta=True, litstr=litstr, mn=mn, mx=None if inf else mx, types=types)
+        row = dict(meta=True, litstr=litstr, mn=mn, mx=None if inf else mx, types=types, canon=name)
         for nm in aliases + [name]:
             need(all(ord(c) < 128 for c in nm), f"{what}: non-ASCII name")
             order.append((nm.lower(), row))
@@ -302,6 +302,10 @@ def gen_parser_tables():
     for kind in ("infix", "prefix", "postfix"):
         out += f"Definition {kind}_table : list (list N * N * bool) :=\n  [ " + "\n  ; ".join(
             f"({nl(k)}, {p}, {b(l)}) (* {k} *)" for k, p, l in ops[kind]) + " ].\n"
+    out += ("\n(* Metacommand.name of every metacommand key (an alias such as .db maps to the name of its command);\n"
+            "   used by Model/ParseAsm.v, which dispatches on cmd.name as tools/ast2coq.py does *)\n"
+            "Definition meta_canonical : list (list N * list N) :=\n  [ "
+            + "\n  ; ".join(f"({nl(k)}, {nl(r['canon'].lower())}) (* {k} -> {r['canon']} *)" for k, r in cmds.items() if r["meta"]) + " ].\n")
     out += "\n(* parser.REGISTER_NAMES *)\nDefinition parser_register_names : list (list N) :=\n  [ " + "; ".join(nl(r) for r in reg_names) + " ].\n"
     return {"GenParserTables.v": out}
 
